@@ -162,6 +162,12 @@ class Context:
         self._globals["parseInt"] = self._global_parseint
         self._globals["parseFloat"] = self._global_parsefloat
 
+        # URI handling functions
+        self._globals["encodeURIComponent"] = self._global_encode_uri_component
+        self._globals["encodeURI"] = self._global_encode_uri
+        self._globals["decodeURIComponent"] = self._global_decode_uri_component
+        self._globals["decodeURI"] = self._global_decode_uri
+
         # eval function
         self._globals["eval"] = self._create_eval_function()
 
@@ -1403,6 +1409,79 @@ class Context:
                 raise JSError(f"EvalError: {str(e)}")
 
         return eval_fn
+
+    # ---- URI handling functions ----
+
+    _URI_UNRESERVED = set(
+        "ABCDEFGHIJKLMNOPQRSTUVWXYZabcdefghijklmnopqrstuvwxyz0123456789-_.!~*'()"
+    )
+    _URI_RESERVED = set(";/?:@&=+$,#")
+
+    def _uri_encode(self, text: str, keep: set) -> str:
+        from .errors import JSURIError
+
+        out = []
+        for ch in text:
+            if ch in keep:
+                out.append(ch)
+                continue
+            if 0xD800 <= ord(ch) <= 0xDFFF:
+                raise JSURIError("URI malformed")
+            out.append("".join("%%%02X" % b for b in ch.encode("utf-8")))
+        return "".join(out)
+
+    def _uri_decode(self, text: str, keep: set) -> str:
+        from .errors import JSURIError
+
+        out = []
+        i = 0
+        n = len(text)
+        while i < n:
+            ch = text[i]
+            if ch != "%":
+                out.append(ch)
+                i += 1
+                continue
+            start = i
+            data = bytearray()
+            # one escaped character: a lead byte and its continuation bytes
+            while True:
+                hex_pair = text[i + 1 : i + 3]
+                if text[i : i + 1] != "%" or len(hex_pair) != 2:
+                    raise JSURIError("URI malformed")
+                try:
+                    data.append(int(hex_pair, 16))
+                except ValueError:
+                    raise JSURIError("URI malformed") from None
+                i += 3
+                lead = data[0]
+                need = 1 if lead < 0x80 else 2 if 0xC2 <= lead <= 0xDF else 3 if 0xE0 <= lead <= 0xEF else 4 if 0xF0 <= lead <= 0xF4 else 0
+                if need == 0:
+                    raise JSURIError("URI malformed")
+                if len(data) == need:
+                    break
+            try:
+                decoded = data.decode("utf-8")
+            except UnicodeDecodeError:
+                raise JSURIError("URI malformed") from None
+            out.append(text[start:i] if decoded in keep else decoded)
+        return "".join(out)
+
+    def _global_encode_uri_component(self, *args):
+        text = self._js_to_string(args[0]) if args else "undefined"
+        return self._uri_encode(text, self._URI_UNRESERVED)
+
+    def _global_encode_uri(self, *args):
+        text = self._js_to_string(args[0]) if args else "undefined"
+        return self._uri_encode(text, self._URI_UNRESERVED | self._URI_RESERVED)
+
+    def _global_decode_uri_component(self, *args):
+        text = self._js_to_string(args[0]) if args else "undefined"
+        return self._uri_decode(text, set())
+
+    def _global_decode_uri(self, *args):
+        text = self._js_to_string(args[0]) if args else "undefined"
+        return self._uri_decode(text, self._URI_RESERVED)
 
     def _global_isnan(self, *args) -> bool:
         """Global isNaN - converts argument to number first."""
